@@ -795,6 +795,40 @@ func checkC20(w *World, r *Report) {
 	r.Rule("R20.2", "filter predicates and combinators: IsConfig = node.Config(); IsState = ¬IsConfig ∧ ¬IsOpd (compared as formulas over the same node); Include returns true exactly when some non-nil member accepts, Exclude false; IncludeState(true) = IsState, IncludeState(false) = Exclude(IsState)", 5)
 	r.guard("R20.2", func() { c20Combinators(w, r) })
 
+	r.Rule("R20.8", "a combinator always yields a filter: Include, Exclude, IncludeState and IsConfigOrState return a function of their own on every path — never nil (which the compiler takes for `do not filter at all`) and never one of their arguments as it stands (which may be nil)", 4)
+	r.guard("R20.8", func() {
+		for _, name := range []string{"Include", "Exclude", "IncludeState", "IsConfigOrState"} {
+			f := w.SSAFunc(w.Func("compile", name))
+			if f == nil {
+				panic(undecided{"compile." + name})
+			}
+			why := ""
+			n := 0
+			for _, b := range f.Blocks {
+				ret, ok := b.Instrs[len(b.Instrs)-1].(*ssa.Return)
+				if !ok || len(ret.Results) != 1 {
+					continue
+				}
+				n++
+				v := ret.Results[0]
+				if ct, isCT := v.(*ssa.ChangeType); isCT {
+					v = ct.X
+				}
+				switch x := v.(type) {
+				case *ssa.MakeClosure, *ssa.Function:
+				case *ssa.Call:
+					// another combinator of the package
+					if g := x.Call.StaticCallee(); g == nil || g.Pkg != f.Pkg {
+						why = "returns the result of " + x.String()
+					}
+				default:
+					why = "returns `" + v.String() + "`"
+				}
+			}
+			r.Check(why == "" && n > 0, "R20.8", name+" returns a filter of its own", f.Pos(), "a function literal on every path", name+" "+why+": with no member (or a nil member) the combination is nil, and the compiler then builds the unfiltered schema instead of the pruned one")
+		}
+	})
+
 	r.Rule("R20.3", "filters are pure: the exported predicates and the closures of the combinators write nothing", 6)
 	r.guard("R20.3", func() {
 		eff := NewEffects(w)
